@@ -3,7 +3,7 @@
    providers answer inside [okans]; hence every run that returns starts from the request
    (the extracted checker [ic_sirb] accepts it), for every draw script.  rho, and the
    rejected argument combinations. *)
-From EoNV Require Import Prelude Samp Graph EventSIR EventSIRConst SampP C05x C05xEsirInv C05xGeneric C05xEsir.
+From EoNV Require Import Prelude Samp Graph EventSIR EventSIRConst SampP InitChk C05xEsirInv C05xGeneric C05xEsir.
 From EoNV Require GillespieP.
 Require Import Lqa Qround.
 From Coq Require Import Permutation.
